@@ -104,6 +104,20 @@ class Angle(EdgeData):
     def scale(self, ratio, origin=None):
         """Axis is not to be scaled"""
 
+    def rotate(self, angle, axis, origin=None):
+        """Axis is a direction: it is rotated but not displaced"""
+        self.axis.rotate(angle, axis, [0, 0, 0])
+
+        return self
+
+    def mirror(self, normal, origin=None):
+        """Axis is a direction: it is reflected but not displaced;
+        a mirror image turns in the opposite sense"""
+        self.axis.mirror(normal, [0, 0, 0])
+        self.axis.position *= -1
+
+        return self
+
     @property
     def parts(self):
         return [self.axis]
